@@ -40,6 +40,15 @@ def run(ctx, progs):
     for r, t in (("IO1", "never Err"), ("IO2", "write/flush shapes"), ("IO3", "read/fill_buf shapes"), ("IO4", "consume = drain(..min(amt, len))"), ("MOD1", "capacity zero"), ("DRN1", "consume relies on Drain::drop: droppers -> restore -> return on every path")):
         ctx.rule(r, t)
     ctx.assumptions.append("<&[u8] as std::io::Read>::read is infallible and copies min(len) bytes (std source)")
+    if "default" in progs and "unstable" in progs:
+        # the io impls under the `unstable` feature: everything above is decided on each configuration's own MIR; that the nightly arms of the helpers
+        # are the reviewed substitution of a std API for the hand-written code (same operands, same end of the slice) is C18's
+        # DELEG1, evaluated here too because the statement quantifies over configurations
+        from . import c18 as _c18
+
+        ctx.rule("DELEG1", "each unstable arm is the reviewed substitution with pass-through operands")
+        _c18.deleg1(ctx, progs["default"], progs["unstable"], "default|unstable", _c18.cfgdiff2(ctx, progs["default"], progs["unstable"], "default|unstable") if False else ())
+
     for cfg, prog in progs.items():
         io1(ctx, prog, cfg)
         io2(ctx, prog, cfg)
